@@ -110,6 +110,33 @@ class CWorld(ObjWorld):
                 kern.update(cls._gen_kernels())
                 roots.append(cls)
         self.n_accessors = len(kern)
+        if c.get("decoy"):
+            # history of the process: an earlier build, in another context, of same-named types that
+            # differ in what the names do not spell out (axis order of N-D arrays). Whatever the
+            # library keeps between builds must not leak from one into the other.
+            import copy
+
+            dschema = copy.deepcopy(self.schema)
+            changed = False
+            for ty in dschema:
+                if ty["k"] == "array" and len(ty["shape"]) > 1:
+                    ty["order"] = list(reversed(ty["order"]))
+                    ty["order_decl"] = None
+                    changed = True
+            if changed:
+                dcls = typegen.build_classes(dschema)
+                dk, droots = {}, []
+                for t, cls in enumerate(dcls):
+                    if dschema[t]["k"] in ("struct", "array", "uref"):
+                        dk.update(cls._gen_kernels())
+                        droots.append(cls)
+                old0 = type(self.cctx)._compile_kernels_info
+                type(self.cctx)._compile_kernels_info = False
+                try:
+                    xo.ContextCpu().add_kernels(kernels=dk, extra_classes=droots, extra_compile_args=("-O0", "-Wno-unused-function"), extra_link_args=("-O0",))
+                finally:
+                    type(self.cctx)._compile_kernels_info = old0
+                self.decoy_built = True
         probes = c.get("probes")
         sources = []
         if probes:
@@ -414,7 +441,7 @@ class CApiSim(ObjSim):
         omps = [rng.choice([0, 0, 0, 2, "auto"]) for _ in spec["contexts"]]
         for c, o in zip(spec["contexts"], omps):
             c["omp"] = o
-        spec["c"] = {"ctx": rng.randrange(len(spec["contexts"])), "opt": "-O3" if rng.random() < 0.1 else "-O0"}
+        spec["c"] = {"ctx": rng.randrange(len(spec["contexts"])), "opt": "-O3" if rng.random() < 0.1 else "-O0", "decoy": rng.random() < 0.3}
         if profile == "c_calls":
             from . import cprobes
 
@@ -430,4 +457,6 @@ class CApiSim(ObjSim):
             res.viol_step = 0
             return None
         res.probe("accessors_compiled", w.n_accessors)
+        if getattr(w, "decoy_built", False):
+            res.fault("earlier_build_of_same_named_types")
         return w
